@@ -4,6 +4,9 @@ import (
 	"context"
 	"encoding/json"
 	"fmt"
+	"io/ioutil"
+	"os"
+	"path/filepath"
 	"sort"
 	"strings"
 
@@ -268,6 +271,148 @@ func reboot(s shadow, drain bool) (*Crew, string) {
 	return c, ""
 }
 
+// ---- the same histories with the repository's own consumer: sio.Stdio folding Result.Changed into its state
+// map and writing it out after every message, and siostd's boot path reading that file back ----------------
+
+type stdioHost struct {
+	c      *Crew
+	io     *Stdio
+	cancel context.CancelFunc
+}
+
+var c15File string
+
+func bootStdio(file string, readBack bool) (*stdioHost, string) {
+	ctx, cancel := context.WithCancel(context.Background())
+	sio := NewStdio(false)
+	sio.In, sio.Out = strings.NewReader(""), ioutil.Discard
+	sio.StateOutputFilename, sio.WriteStatePerMsg = file, true
+	if readBack {
+		sio.StateInputFilename = file
+	}
+	c, err := NewCrew(ctx, &CrewConf{Id: "t", Ctl: &core.Control{Limit: 100}}, sio)
+	if err != nil {
+		cancel()
+		return nil, err.Error()
+	}
+	h := &stdioHost{c: c, io: sio, cancel: cancel}
+	if err := sio.Start(ctx); err != nil {
+		h.stop()
+		return nil, err.Error()
+	}
+	ms, err := sio.Read(ctx)
+	if err != nil {
+		h.stop()
+		return nil, "Stdio.Read: " + err.Error()
+	}
+	var mids []string
+	for mid := range ms {
+		mids = append(mids, mid)
+	}
+	sort.Strings(mids)
+	for _, mid := range mids {
+		if err := c.SetMachine(ctx, mid, ms[mid].SpecSource, ms[mid].State); err != nil {
+			h.stop()
+			return nil, "SetMachine from the state file failed: " + err.Error()
+		}
+	}
+	return h, ""
+}
+
+func (h *stdioHost) stop() {
+	if h.c != nil && h.c.out != nil {
+		h.c.out <- nil // ends the consumer
+		h.io.WG.Wait() // ... and its last write of the state file
+		h.c.out = nil
+	}
+	h.cancel()
+}
+
+// process hands the message to the crew and its result to the consumer, and waits until it has been folded
+// and written (the consumer takes results one at a time: once it accepts an empty second one it is done with the first).
+func (h *stdioHost) process(msg interface{}) string {
+	r, err := h.c.ProcessMsg(context.Background(), msg)
+	if err != nil {
+		return "error: " + err.Error()
+	}
+	h.c.out <- r
+	h.c.out <- &Result{}
+	return ""
+}
+
+func fileKey(file string) (string, string) {
+	js, err := ioutil.ReadFile(file)
+	if err != nil {
+		return "", err.Error()
+	}
+	var ms map[string]*crew.Machine
+	if err := json.Unmarshal(js, &ms); err != nil {
+		return "", err.Error()
+	}
+	return shadowKey(shadow(ms)), ""
+}
+
+// c15ViaStdio replays a history against a crew whose host is the real Stdio; after every message the state
+// file must describe the live crew; "restart" boots a new crew from that file.
+func c15ViaStdio(hist []string) [][2]string {
+	if c15File == "" {
+		dir := "/dev/shm"
+		if st, err := os.Stat(dir); err != nil || !st.IsDir() {
+			dir = os.TempDir()
+		}
+		c15File = filepath.Join(dir, fmt.Sprintf("verif-sio-state-%d.json", os.Getpid()))
+	}
+	os.Remove(c15File)
+	h, bad := bootStdio(c15File, false)
+	if bad != "" {
+		return [][2]string{{"stdio-boot-failed", bad}}
+	}
+	defer func() {
+		if h != nil {
+			h.stop()
+		}
+		os.Remove(c15File)
+	}()
+	written := false
+	for i, name := range hist {
+		if name == "restart" || name == "restart-drain" {
+			h.stop()
+			h, bad = bootStdio(c15File, written)
+			if bad != "" {
+				return [][2]string{{"stdio-reboot-failed/after-" + strings.Join(hist[:i], ","), bad}}
+			}
+			continue
+		}
+		var res string
+		if p, pm, where := vh.Trap(func() { res = h.process(opByName(name).Msg()) }); p {
+			return [][2]string{{"stdio-panic/" + where, pm}}
+		}
+		if res != "" {
+			return nil // the first half of the check reports processing failures
+		}
+		written = true
+		// the consumer is now idle or re-writing the same state for the empty result: its map is only read
+		if lk, sk := liveKey(h.c), shadowKey(shadow(h.io.state)); lk != sk {
+			return [][2]string{{"stdio-state-differs-from-live-crew/after-" + name,
+				fmt.Sprintf("history %v with sio.Stdio as the host: after %q the live crew is [%s] but the state Stdio keeps holds [%s]", hist[:i+1], name, lk, sk)}}
+		}
+	}
+	// the file, once the consumer has finished
+	lk := liveKey(h.c)
+	h.stop()
+	if written {
+		fk, ferr := fileKey(c15File)
+		if ferr != "" {
+			return [][2]string{{"stdio-state-file-unreadable", ferr}}
+		}
+		if lk != fk {
+			return [][2]string{{"stdio-state-file-differs-from-live-crew/after-" + hist[len(hist)-1],
+				fmt.Sprintf("history %v with sio.Stdio as the host: the live crew is [%s] but the state file written by Stdio holds [%s]", hist, lk, fk)}}
+		}
+	}
+	return nil
+}
+
 func stateKeyFull(c *Crew, s shadow) string {
 	var prev []string
 	for k, v := range c.previous {
@@ -295,6 +440,7 @@ func c15Check(hist []string) ([][2]string, string) {
 	if lk, sk := liveKey(c), shadowKey(s); lk != sk {
 		out = append(out, [2]string{"store-differs-from-live-crew/after-" + last, fmt.Sprintf("after %v the live crew is [%s] but a store that applied every reported change holds [%s]", hist, lk, sk)})
 	}
+	out = append(out, c15ViaStdio(hist)...)
 	key := stateKeyFull(c, s)
 	// differential: a crew rebuilt from the store behaves like the original
 	for _, cont := range c15Conts {
@@ -361,7 +507,7 @@ func C15(c *vh.Ctx) {
 	}
 	depth := c.Pick(4, 5)
 	c.Bound("history_max", depth)
-	c.Rule(fmt.Sprintf("breadth-first search over histories of crew operations on a real sio.Crew (fresh crew + replay per successor; states deduplicated by live machines, captain state, shadow store and change cache): alphabet of %d operations (create m1/m2/boss with specs X/Y/Z, replace m1's state, replace m1's spec, delete m1, messages to all / to m1, a machine that deletes and re-creates m1 within one ProcessMsg, deletion of m2 by the host and by a machine, a captain operation that fails, and *restart*: the crew is replaced by one rebuilt from the shadow store, so every message boundary is a crash-and-restart point and the search goes on from the restarted crew), depth up to the bound. Invariant in every state: a store that folded every Result.Changed (as sio.Stdio does) equals the live crew (node, bindings, spec; deleted machines absent; a stored machine without state is start/{}). Differential in every state: a crew rebuilt from that store through SetMachine (the siostd boot path) and the original give equal emissions, equal next states and equal stores (each crew's reported changes folded into its own copy of the store, which must also equal that crew) on %d continuations of length <= 2.", len(c15Ops), len(c15Conts)))
+	c.Rule(fmt.Sprintf("breadth-first search over histories of crew operations on a real sio.Crew (fresh crew + replay per successor; states deduplicated by live machines, captain state, shadow store and change cache): alphabet of %d operations (create m1/m2/boss with specs X/Y/Z, replace m1's state, replace m1's spec, delete m1, messages to all / to m1, a machine that deletes and re-creates m1 within one ProcessMsg, deletion of m2 by the host and by a machine, a captain operation that fails, and *restart*: the crew is replaced by one rebuilt from the shadow store, so every message boundary is a crash-and-restart point and the search goes on from the restarted crew), depth up to the bound. Invariant in every state: a store that folded every Result.Changed (as sio.Stdio does) equals the live crew (node, bindings, spec; deleted machines absent; a stored machine without state is start/{}). The same histories are also replayed with the repository's own consumer as the host - sio.Stdio folding Result.Changed into its state map and writing the state file after every message, restart = siostd's boot path reading that file back - and after every message the file must describe the live crew. Differential in every state: a crew rebuilt from that store through SetMachine (the siostd boot path) and the original give equal emissions, equal next states and equal stores (each crew's reported changes folded into its own copy of the store, which must also equal that crew) on %d continuations of length <= 2.", len(c15Ops), len(c15Conts)))
 	seen := map[string]bool{}
 	reported := map[string]bool{}
 	frontier := [][]string{{}}
